@@ -48,7 +48,7 @@ func newTrio(s *world.Sim) *trio {
 	// held (client.stateWatcher) and sends the acceptances from there; a
 	// publisher that parks its caller would violate R3, so the bus is always
 	// asynchronous in three-party runs.
-	w.Bus.Async = true
+	w.Bus.Async = sc.Cfg("sync_bus", 0) != 1 // sync_bus is only set by scenarios without matched virtual-channel proposals
 	if v := sc.Cfg("bus_max_us", 0); v > 0 {
 		w.Bus.MaxDelay = time.Duration(v) * time.Microsecond
 	}
